@@ -72,7 +72,11 @@ theorem readFrame_good (s : Stream) (d : Dec) (h : Good s d) :
           | cons g r =>
             have : 14 < f.len := hlong.1
             simp [this]
-        simp [hc]
+        -- the frame never overshoots the declared total on a valid stream
+        have hov : (Gen.decOvershootIsError && decide (f.len > t - d.cur)) = false := by
+          have : ¬ f.len > t - d.cur := by omega
+          simp [this]
+        simp [hc, hov]
       · refine ⟨fun g hg => hpos g (by simp [hr, hg]), ?_⟩
         simp only [htot]
         refine ⟨?_, nonFinalLong_tail f fs hlong⟩
